@@ -95,6 +95,8 @@ enum Op {
     Return(Option<Expr>),
     Choice(usize),
     OutOfContent,
+    /// multi-line sequence: jump to the element the counter selects (or past the block)
+    SeqSwitch { id: usize, kind: SeqKind, targets: Vec<usize>, end: usize },
 }
 
 #[derive(Debug, Clone)]
@@ -249,6 +251,36 @@ impl Lower {
             Stmt::Done => self.ops.push(Op::Done),
             Stmt::End => self.ops.push(Op::End),
             Stmt::Return(e) => self.ops.push(Op::Return(e.clone())),
+            Stmt::SeqBlock(kind, branches) => {
+                let id = self.nseq;
+                self.nseq += 1;
+                let sw = self.ops.len();
+                self.ops.push(Op::SeqSwitch { id, kind: kind.clone(), targets: vec![], end: 0 });
+                let mut targets = vec![];
+                let mut exits = vec![];
+                for lines in branches {
+                    targets.push(self.ops.len());
+                    // an element starts on a line of its own
+                    self.ops.push(Op::Newline);
+                    for l in lines {
+                        self.line(l);
+                    }
+                    exits.push(self.ops.len());
+                    self.ops.push(Op::Jump(0));
+                }
+                let end = self.ops.len();
+                for x in exits {
+                    if let Op::Jump(t) = &mut self.ops[x] {
+                        *t = end;
+                    }
+                }
+                if let Op::SeqSwitch { targets: t, end: e, .. } = &mut self.ops[sw] {
+                    *t = targets;
+                    *e = end;
+                }
+                // the line that holds the block ends
+                self.ops.push(Op::Newline);
+            }
             Stmt::If(branches, els) => {
                 // { - c1: block - c2: block - else: block } ; the line that holds the block
                 // ends in a newline of its own
@@ -881,7 +913,8 @@ impl<'a> Machine<'a> {
             Some(v) => v,
             None => match self.globals.get(name) {
                 Some(v) => v.clone(),
-                None => return Err(format!("unknown variable {name}")),
+                // a temporary whose declaration was jumped over reads as 0 (with a warning)
+                None => Val::I(0),
             },
         };
         self.deref(v)
@@ -1325,6 +1358,28 @@ impl<'a> Machine<'a> {
                 self.set_pos(pos + 1);
             }
             Op::Jump(t) => self.set_pos(t),
+            Op::SeqSwitch { id, kind, targets, end } => {
+                self.events.insert("sequence");
+                let n = *self.seq.get(&id).unwrap_or(&0);
+                self.seq.insert(id, n + 1);
+                let len = targets.len() as i32;
+                let idx = match kind {
+                    SeqKind::Stopping => Some(n.min(len - 1)),
+                    SeqKind::Cycle => Some(n % len),
+                    SeqKind::Once => {
+                        if n < len {
+                            Some(n)
+                        } else {
+                            None
+                        }
+                    }
+                    SeqKind::Shuffle => return Err("shuffle outside the model".into()),
+                };
+                match idx {
+                    Some(k) => self.set_pos(targets[k as usize]),
+                    None => self.set_pos(end),
+                }
+            }
             Op::JumpIfFalse(c, t) => {
                 if self.eval(&c)?.truthy()? {
                     self.set_pos(pos + 1);
